@@ -1,6 +1,7 @@
 package wsim
 
 import (
+	"io"
 	"bufio"
 	"bytes"
 	"context"
@@ -367,6 +368,15 @@ func (rn *runner) configure(e *RealEnd) {
 	if cfg.NoWriteComp {
 		c.EnableWriteCompression(false)
 	}
+	if cfg.ResetHandlers {
+		// an application that had its own handlers for a while and then restores the defaults
+		c.SetPingHandler(func(string) error { return errHandler })
+		c.SetPongHandler(func(string) error { return errHandler })
+		c.SetCloseHandler(func(int, string) error { return errHandler })
+		c.SetPingHandler(nil)
+		c.SetPongHandler(nil)
+		c.SetCloseHandler(nil)
+	}
 	if cfg.Handlers == "record" || cfg.Handlers == "error" {
 		rec := func(op int, data string, code int) error {
 			hc := HandlerCall{Op: op, Data: data, Code: code, Delivered: e.delivered, MsgIndex: e.msgIndex,
@@ -376,6 +386,12 @@ func (rn *runner) configure(e *RealEnd) {
 			if cfg.Handlers == "error" && e.nHandler == cfg.HandlerErrAt {
 				hc.Returned = "err"
 				err = errHandler
+				switch cfg.HandlerErrKind {
+				case "eof":
+					err = io.EOF
+				case "ueof":
+					err = io.ErrUnexpectedEOF
+				}
 			}
 			e.Handlers = append(e.Handlers, hc)
 			return err
